@@ -13,7 +13,7 @@ DOC = {
                    'pairs in inverse order (R4).',
     'rules': {
         'C17.R1': 'arg::split: every &s[a..b] is indexed by byte offsets (unit lint: a counter incremented by 1 per char is CHARS)',
-        'C17.R2': 'SPECIAL_CHARS is a superset of | & ; < > ( ) $ ` \\ " space tab * ? [ # ~ = % { }',
+        'C17.R2': 'SPECIAL_CHARS is a superset of | & ; < > ( ) $ ` \\ " space tab * ? [ # ~ = % { } and ! (history expansion in interactive shells)',
         'C17.R3': "quote(): branch 1 iff any char < 0x20, == 0x7f, == U+FFFD or == '\\''; branch 2 iff any char in SPECIAL_CHARS -> '...'; else bare - and bare only for a non-empty argument",
         'C17.R5': 'splitter/quoter agreement: every character arg::split treats specially (delimiters, quotes, escapes, comment) forces quoting in arg::quote; split uses no character-class predicate that quote does not mirror',
         'C17.R4': "$'..' encode = to_stfu8 then replace(' -> \\'); decode = replace(\\' -> ') then from_stfu8",
@@ -22,7 +22,7 @@ DOC = {
     'assumptions': ['POSIX XCU 2.2 list of characters that must be quoted'],
 }
 
-POSIX = ['|', '&', ';', '<', '>', '(', ')', '$', '`', '\\', '"', ' ', '\t', '*', '?', '[', '#', '~', '=', '%', '{', '}']
+POSIX = ['|', '&', ';', '<', '>', '(', ')', '$', '`', '\\', '"', ' ', '\t', '*', '?', '[', '#', '~', '=', '%', '{', '}', '!']     # '!': history expansion of interactive bash/zsh/csh (the script is meant to be pasted into a shell)
 
 
 def const_chars(lib, item):
